@@ -2,12 +2,12 @@
 # seedrun.sh <prop> <patch.diff> [tier]  — development aid: run the check of <prop> against a scratch
 # worktree of /repo with the patch applied (VERIF_REPO), without touching /repo or the evidence.
 set -u
-P=$1; PATCH=$2; TIER=${3:-quick}
+P=$1; PATCH=$2; TIER=${3:-quick}; shift; shift; shift 2>/dev/null; EXTRA="$*"
 WT=/tmp/wt/run-$P-$$
 for try in 1 2 3 4 5; do git -C /repo worktree add --detach "$WT" HEAD -q && break; sleep 3; done; [ -d "$WT" ] || exit 2
 git -C "$WT" apply "$PATCH" || { git -C /repo worktree remove --force "$WT"; echo "patch does not apply"; exit 2; }
 mkdir -p /tmp/seedrun
-VERIF_REPO=$WT GOSYM_NOEVIDENCE=1 GOSYM_REPLAYDIR=/tmp/seedrun/replays-$P-$$ /verif/check $P $TIER 2>&1 | sed "s#$WT#/repo#g" | grep -v '^  ' | tail -15
+VERIF_REPO=$WT GOSYM_NOEVIDENCE=1 GOSYM_REPLAYDIR=/tmp/seedrun/replays-$P-$$ /verif/check $P $TIER $EXTRA 2>&1 | sed "s#$WT#/repo#g" | grep -v '^  ' | tail -15
 rc=${PIPESTATUS[0]}
 git -C /repo worktree remove --force "$WT"
 rm -rf /tmp/seedrun/replays-$P-$$
